@@ -53,6 +53,12 @@ def run(R):
         r5_tail(R, m)
     if R.want("C09.R6"):
         r6(R, m)
+    if R.want("C09.R7"):
+        # the refinement's g-vectors come from two routes that must be one function: the C kernel used by assignlabels and the
+        # Python chain used by compute_gv (omega passed already multiplied by omegasign, grain origin from t_x,t_y,t_z).
+        # Shared with C01.R2 / C01.R4.
+        mods = {"transform": pyfacts.module(R, c01.TR), "point_by_point": pyfacts.module(R, c01.PBP)}
+        c01.r24(R, mods, r2n="C09.R7", r4n="C09.R7")
 
 
 # --------------------------------------------------------------------------------------------------
